@@ -125,7 +125,7 @@ theorem ordererPaths_eq : ordererPaths =
 theorem typingImportCandidates_eq : typingImportCandidates = ["Any", "List", "Union"] := by decide
 theorem attrNameKeptChars_eq : attrNameKeptChars = ["_", "-", " "] := by decide
 theorem reserved_has_keywords :
-    ["class", "def", "None", "True", "False", "__dict__", "_dict", "__class__", "__init__"].all
-      (fun n => n == "__dict__" || reservedProperties.contains n) = true := by decide
+    ["class", "def", "None", "True", "False", "__dict__", "__weakref__", "_dict", "__class__", "__init__"].all
+      (fun n => reservedProperties.contains n) = true := by decide
 
 end Statham.Tie
